@@ -31,6 +31,7 @@ import (
 	"path/filepath"
 	"reflect"
 	"sort"
+	"strconv"
 	"strings"
 	"time"
 	"unsafe"
@@ -133,7 +134,7 @@ var visible = map[string]bool{
 	"bypass-origin": true, "bypass-origin-traces": true, "bypass-destination": true, "custom-trace-numbers": true,
 	"allow-zero-batches": true, "allow-missing-file-header": true, "unordered-batch-numbers": true,
 	"unequal-service-class": true, "unequal-addenda-counts-control": true, "invalid-check-digit": true,
-	"check-transaction-code": true, "plain": true,
+	"check-transaction-code": true, "plain": true, "short-traces": true,
 }
 
 // verdicts: File.Validate() (+ nothing else: no IAT / ADV here) as stored, with the options of file and
@@ -234,6 +235,49 @@ func shifted(f *ach.File) *ach.File {
 	return c
 }
 
+// shortTraces: a forward file under BypassOriginValidation whose trace numbers are short decimal
+// strings of mixed width ("9", "10", "113"): Go's string order (what the tree-map of the merge and
+// isSequenceAscending use) and the order of the zero padded fields differ.  Kept only if it validates.
+func shortTraces(r *rng.R) *ach.File {
+	f := gen.File(r, gen.Opts{SECs: []string{ach.PPD, ach.CCD, ach.WEB}, ForwardOnly: true, MaxBatches: 2, MaxEntries: 4})
+	if f == nil || len(f.IATBatches) > 0 {
+		return nil
+	}
+	byValue := r.Chance(1, 3)
+	for _, b := range f.Batches {
+		es := b.GetEntries()
+		seen := map[int]bool{}
+		var nums []int
+		for len(nums) < len(es) {
+			if n := 1 + r.Intn(1200); !seen[n] {
+				seen[n] = true
+				nums = append(nums, n)
+			}
+		}
+		strs := make([]string, len(nums))
+		sort.Ints(nums)
+		for i, n := range nums {
+			strs[i] = strconv.Itoa(n)
+		}
+		if !byValue {
+			sort.Strings(strs)
+		}
+		for i, e := range es {
+			e.TraceNumber = strs[i]
+		}
+	}
+	gen.ApplyOpts(f, &ach.ValidateOpts{BypassOriginValidation: true})
+	for _, b := range f.Batches {
+		if b.Create() != nil {
+			return nil
+		}
+	}
+	if f.Create() != nil || gen.ValidAll(f) != nil {
+		return nil
+	}
+	return f
+}
+
 func mergeInputs(r *rng.R) []mergeInput {
 	v := variantOf(r)
 	g := gen.NeedsOptsOf(r, v)
@@ -269,6 +313,31 @@ func mergeInputs(r *rng.R) []mergeInput {
 	if r.Chance(1, 4) {
 		if c := shifted(g); c != nil {
 			ins = append(ins, mergeInput{c, v.Name})
+		}
+	}
+	if r.Chance(1, 5) {
+		if s := shortTraces(r); s != nil {
+			if r.Bool() {
+				s.Header.ImmediateOrigin, s.Header.ImmediateDestination = g.Header.ImmediateOrigin, g.Header.ImmediateDestination
+				_ = s.Create()
+			}
+			ins = append(ins, mergeInput{s, "short-traces"})
+			if r.Bool() {
+				if s2 := shortTraces(r); s2 != nil {
+					s2.Header.ImmediateOrigin, s2.Header.ImmediateDestination = s.Header.ImmediateOrigin, s.Header.ImmediateDestination
+					for i, b := range s2.Batches {
+						if i < len(s.Batches) {
+							// the same batch header: the entries join one tree-map
+							h := *s.Batches[i].GetHeader()
+							h.BatchNumber = b.GetHeader().BatchNumber
+							b.SetHeader(&h)
+							_ = b.Create()
+						}
+					}
+					_ = s2.Create()
+					ins = append(ins, mergeInput{s2, "short-traces"})
+				}
+			}
 		}
 	}
 	var out []mergeInput
@@ -398,8 +467,10 @@ func runMerge(c spec) (res mergeRun) {
 		return
 	}
 	if err != nil {
+		// the model predicts an error only when a trace-number rule of Batch.Create fails
 		res.implLine = il.String() + " | ERR"
-		res.skipped = "merge-error"
+		add("merge:opts5:error", fmt.Sprintf("MergeFilesWith (MaxLines %d, MaxDollarAmount %d) fails on files that validate under their options (%s): %v",
+			cond.MaxLines, cond.MaxDollarAmount, label, err))
 		return
 	}
 	fmt.Fprintf(&il, " | %d", len(outs))
